@@ -53,6 +53,12 @@ T1Order    == << "a.json", "b.yaml", "c.json", "sub" >>
 PDirLists == { <<"A">>, <<"A", "B">>, <<"B", "A">> }
 PContents == { Ok("k1", {"x"}, 1), Ok("k1", {"x", "y"}, 1), Bad("noperm"), Bad("syntax") }
 PWContents == { Ok("k1", {"x"}, 2), Ok("k1", {"y"}, 1), Bad("noperm") }
+\* "every later repair": one directory, every kind of failing entry,
+\* then one change of one entry (repair, break, replace, remove) and a refresh
+RDirLists == { <<"A">> }
+RContents == { Ok("k1", {"x"}, 1), Lnk("k1", {"x"}, 1), Bad("syntax"), Bad("semantic"), Bad("empty"), Bad("dangling"),
+               Bad("linkdir"), Bad("dirent"), Bad("blank"), Bad("nodoc"), Bad("nulldoc") }
+RWContents == { Ok("k1", {"x"}, 2), Ok("k1", {"y"}, 1), Lnk("k1", {"x"}, 2), Bad("syntax"), Bad("dangling"), Bad("nodoc") }
 T2DirLists == { <<"A">> }
 T2Order    == << "U.JSON", "a.json", "n.txt", "noext", "sub", "t.tmp", "x.json.bak" >>
 T2Contents == { Ok("k1", {"x"}, 1), Bad("empty"), Bad("semantic"), Bad("nodoc"), Bad("nulldoc") }
